@@ -134,6 +134,19 @@ def register(reg):
         may_raise={"AnyException": "not self._SWALLOW_ADDON_EXCEPTIONS"},
         ensures=["ncalls('hook') <= 1"], frame=[]))
 
+    # the last step of "exactly once": a message handed to the proxied circuit's sender is handed to the transport once, on
+    # every circuit state (the proxy marks the circuit dead before it forwards CloseCircuit / DisableSimulator)
+    reg.add_fn(FnContract(
+        key="hippolyzer.lib.proxy.circuit:ProxiedCircuit._send_prepared_message", relpath="hippolyzer/lib/proxy/circuit.py",
+        qualname="ProxiedCircuit._send_prepared_message", cls="ProxiedCircuit", prop=PID, use_wf=False,
+        params={"message": "Obj:Message", "transport": "Opaque:Any"}, param_names=["message", "transport"], returns="Opaque:Any",
+        externals={"self.serializer.serialize": {"returns": "Bytes", "may_raise": "AnyException", "doc": "UDPMessageSerializer.serialize"},
+                   "self.logging_hook": {"doc": "message log hook for injected packets"},
+                   "message.to_dict": {"returns": "Opaque:Any", "doc": "debug representation"},
+                   "self.send_datagram": {"returns": "Opaque:Any", "record_as": "send_datagram", "doc": "hands the datagram to the transport"}},
+        may_raise={"AnyException": ""}, record_as="wire",
+        ensures=["ncalls('send_datagram') == 1"], frame=[]))
+
     def L(name, doc, **spec):
         spec["name"] = name
         reg.lemmas.append(Lemma(name, PID, (lambda s=spec: lemma_vcs(reg, s, PID)), doc))
